@@ -9,4 +9,6 @@ THEOREMS = [P + n for n in (
     # mirrors of the C code (session 3)
     "mirror_trim_edges", "mirror_trim", "mirror_reverse_case_bytes", "mirror_prefix_suffix", "mirror_string_slice",
     "mirror_repeat", "mirror_checkset", "mirror_find", "mirror_split", "mirror_join",
+    "mirror_array_insert", "mirror_array_remove", "mirror_array_slice", "mirror_bitops", "mirror_buffer_fill_popn",
+    "mirror_buffer_blit", "boot_each_family", "boot_map2", "boot_find_index_family", "boot_take_drop", "boot_extreme",
 )]
